@@ -18,7 +18,7 @@ MC = {"quick": [("MC_C17", "MC_C17.cfg", 8)], "thorough": [("MC_C17", "MC_C17.cf
 TRACE = ("Trace_C17", "Trace_C17.cfg")
 THOROUGH_EXTRA_SEEDS = 2
 # the repository\'s own tests, recorded by harness/harvest_plugin.py, judged by the same trace specification
-ALSO = {"quick": [], "thorough": ["harness.props.hv17"]}
+ALSO = {"quick": ["harness.props.c17d"], "thorough": ["harness.props.hv17", "harness.props.c17d"]}
 REQUIRED = ["Format", "SaveOpen", "scalar-time", "coarse-integer-axis", "period-milliseconds", "period-microseconds", "period-seconds", "period-minutes", "period-hours", "period-days", "negative-offset",
             "fractional-offset", "single-digit-hour-offset", "zero-offset", "utc-date-differs", "style-iso", "style-isoT",
             "style-short", "style-loose", "style-zulu", "style-naive",
